@@ -853,9 +853,16 @@ def _uninitialised(model, rep):
                     lambda a, k, n: self)
             raise Unsupported("points." + name)
 
+        def skv_compare(self, op, other):
+            return self
+
     def hook2(interp, name, args, kwargs, node):
         if name.endswith("OrientedBoundary"):
             return ("OB", args[0], args[1])
+        if name == "numpy.argmax" and isinstance(args[0], PS):
+            return "LOCAL-FACET"
+        if name == "numpy.array" and args and args[0] == []:
+            return PS()         # reference midpoints of the local facets
         if name == "numpy.dot":
             return NArr([-1] * 5)       # every facet 'against' the normal
         if name == "numpy.zeros" and isinstance(args[0], tuple):
@@ -863,7 +870,8 @@ def _uninitialised(model, rep):
         return nlite.hook(interp, name, args, kwargs, node)
     obj = Obj(mcls, {
         "p": PS(), "facets": "FACETS", "f2t": NArr([list(r) for r in f2t]),
-        "t2f": "T2F", "dim": PyFunc(lambda a, k, n: 2),
+        "t2f": PS(), "dim": PyFunc(lambda a, k, n: 2),
+        "elem": Obj(None, {"refdom": Obj(None, {"p": PS(), "facets": []})}),
         # the midpoints only feed the predicate, which selects everything
         "_facet_midpoints": PyFunc(lambda a, k, n: PS()),
         "boundary_facets": PyFunc(lambda a, k, n: NArr([1, 2, 3, 4])),
